@@ -391,7 +391,7 @@ def fit_scipy(
         fcn.vm.set_bound(bounds_dict)
         return fit_newton_cg(fcn, method[:-2], True)
     elif method in ["iminuit"]:
-        m = fit_minuit(fcn)
+        m = fit_minuit(fcn, bounds_dict=bounds_dict)
         return m
     elif method in ["root"]:
         m = fit_root_fitter(fcn)
